@@ -6,7 +6,9 @@ import (
 	"google.golang.org/grpc"
 	"google.golang.org/grpc/codes"
 
+	aftpb "github.com/openconfig/gribi/v1/proto/gribi_aft"
 	spb "github.com/openconfig/gribi/v1/proto/service"
+	wpb "github.com/openconfig/ygot/proto/ywrapper"
 )
 
 func init() { vfRegister("VfC07_doGet", VfC07_doGet) }
@@ -30,7 +32,27 @@ func (s *vfGetStream) Send(r *spb.GetResponse) error {
 // through the real Get (goroutines, channels) on a scripted stream.
 func VfC07_doGet() {
 	s, _ := vfPrimaryServer() // default: next-hop 1, group 1, 1.1.1.1/32
-	vfAddNH(s.masterRIB, "VRF-A", 2)
+	// what the VRF holds: a next-hop, or only an IPv6 / MPLS entry resolved by the default instance's group
+	vrfKind := spb.AFTType_NEXTHOP
+	switch vfInt("vrf.content", 0, 2) {
+	case 0:
+		vfAddNH(s.masterRIB, "VRF-A", 2)
+	case 1:
+		vrfKind = spb.AFTType_IPV6
+		op := &spb.AFTOperation{Id: 950, NetworkInstance: "VRF-A", Op: spb.AFTOperation_ADD, Entry: &spb.AFTOperation_Ipv6{Ipv6: &aftpb.Afts_Ipv6EntryKey{Prefix: "2001:db8:1::/64",
+			Ipv6Entry: &aftpb.Afts_Ipv6Entry{NextHopGroup: &wpb.UintValue{Value: 1}, NextHopGroupNetworkInstance: &wpb.StringValue{Value: DefaultNetworkInstanceName}}}}}
+		if oks, _, err := s.masterRIB.AddEntry("VRF-A", op); err != nil || len(oks) != 1 {
+			panic("cannot seed VRF")
+		}
+	case 2:
+		vrfKind = spb.AFTType_MPLS
+		op := &spb.AFTOperation{Id: 951, NetworkInstance: "VRF-A", Op: spb.AFTOperation_ADD, Entry: &spb.AFTOperation_Mpls{Mpls: &aftpb.Afts_LabelEntryKey{
+			Label:      &aftpb.Afts_LabelEntryKey_LabelUint64{LabelUint64: 100},
+			LabelEntry: &aftpb.Afts_LabelEntry{NextHopGroup: &wpb.UintValue{Value: 1}, NextHopGroupNetworkInstance: &wpb.StringValue{Value: DefaultNetworkInstanceName}}}}}
+		if oks, _, err := s.masterRIB.AddEntry("VRF-A", op); err != nil || len(oks) != 1 {
+			panic("cannot seed VRF")
+		}
+	}
 	req := &spb.GetRequest{}
 	sel := vfInt("ni.sel", 0, 2)
 	name := ""
@@ -80,7 +102,7 @@ func VfC07_doGet() {
 				want++
 			}
 		}
-		if inVRF && (t == spb.AFTType_ALL || t == spb.AFTType_NEXTHOP) {
+		if inVRF && (t == spb.AFTType_ALL || t == vrfKind) {
 			want++
 		}
 		vfAssert(len(st.sent) == want, "C07:get-streams-exactly-the-selected-scope")
